@@ -149,6 +149,14 @@ func runSessionOnce(c SessionCase, st *Stats, h SessionHooks) error {
 			i = j
 			continue
 		}
+		if strings.HasPrefix(r.Op, "LOCAL_") {
+			// not a request: something happens to the served tree behind the server's back
+			if err := m.Local(r); err != nil {
+				return wrap(i, err)
+			}
+			i++
+			continue
+		}
 		enc := r.Encode()
 		m.Observe(r)
 		var serr error
